@@ -283,12 +283,12 @@ class Party(sut.BaseAlgorithm):
             rec["crashed"] = True
             raise SchedulerCrash(fault)
         handed = None
-        if fk == "mutate" or ctx.observe:
+        if fk in ("mutate", "mutate_crash") or ctx.observe:
             self.observe(iface, rec)
         for hook in ctx.pre_hooks:
             hook(self, iface, rec)
         if self.inner is not None:
-            if fk == "mutate":
+            if fk in ("mutate", "mutate_crash"):
                 handed = iface.active_sessions()
                 sched = self.inner.schedule(handed)
             else:
@@ -303,6 +303,14 @@ class Party(sut.BaseAlgorithm):
             rec["digest_before_mutation"] = ctx.state_digest()
             self.mutate_handed(iface, handed or [])
             rec["digest_after_mutation"] = ctx.state_digest()
+        elif fk == "mutate_crash":
+            # the algorithm scribbled over its copies and then failed: the retried call must be shown the true state again
+            rec["digest_before_mutation"] = ctx.state_digest()
+            self.mutate_handed(iface, handed or [])
+            rec["digest_after_mutation"] = ctx.state_digest()
+            ctx.fired("mutate_crash")
+            rec["crashed"] = True
+            raise SchedulerCrash(fault)
         elif fk == "beyond_horizon":
             width = ctx.sim.pilot_signals.shape[1]
             L = max(1, width - t) + fault["extra_len"]
